@@ -577,6 +577,9 @@ func newControlPlaneWithContextOptions(
 		if err != nil {
 			return nil, fmt.Errorf(`failed to create group "%v": %w`, group.Name, err)
 		}
+		if err = policy.ValidateForGroup(len(dialers)); err != nil {
+			return nil, fmt.Errorf(`failed to create group "%v": %w`, group.Name, err)
+		}
 		// Convert node links to dialers.
 		if log.IsLevelEnabled(logrus.DebugLevel) {
 			log.Debugf(`Group "%v" node list:`, group.Name)
